@@ -12,7 +12,7 @@ L(a, name, c) == a /\ h' = Append(h, [a |-> name, c |-> c])
 InitH == Init /\ h = <<>>
 NextH ==
   \/ \E c \in Clients : L(C_Start(c), "C_Start", c) \/ L(C_Enqueue(c), "C_Enqueue", c) \/ L(C_Apply(c), "C_Apply", c)
-  \/ L(W_Recv, "W_Recv", "") \/ L(W_Tick, "W_Tick", "") \/ L(W_Flush, "W_Flush", "") \/ L(W_Close, "W_Close", "")
+  \/ L(W_Recv, "W_Recv", "") \/ L(W_Tick, "W_Tick", "") \/ L(W_Flush, "W_Flush", "") \/ L(W_Close, "W_Close", "") \/ L(W_Dead, "W_Dead", "")
   \/ L(A_Begin("snap"), "A_Begin", "snap") \/ L(A_Capture("snap"), "A_Capture", "snap") \/ L(S_Rename, "S_Rename", "snap")
   \/ L(S_Truncate, "S_Truncate", "snap") \/ L(A_End("snap"), "A_End", "snap") \/ L(A_Reappend("snap"), "A_Reappend", "snap")
   \/ L(A_Begin("rw"), "A_Begin", "rw") \/ L(A_Capture("rw"), "A_Capture", "rw") \/ L(R_Replace, "R_Replace", "rw")
@@ -21,7 +21,7 @@ SpecH == InitH /\ [][NextH]_<<vars, h>>
 
 ViewH == vars
 \* corpus: complete behaviours only; the expectation is what a restart must read
-EmitDone == Done => PrintT(<<"CORPUS", ToJson([ops |-> h, acked |-> acked, dev |-> dev,
+EmitDone == Done => PrintT(<<"CORPUS", ToJson([ops |-> h, acked |-> ackpre, dev |-> dev,
                                                   recovered |-> Recover(snap, file)])>>)
 NextCorpus == EmitDone /\ NextH
 SpecCorpus == InitH /\ [][NextCorpus]_<<vars, h>>
